@@ -89,6 +89,25 @@ CHECKS = {
         note='Trusted: Lean kernel; the AST normalisation in harness/extract.py (removes annotations, docstrings, positions only); CPython determinism; '
              'clock-dependent helpers compared by result type.',
         technique='translation-regenerated tables + Lean 4 kernel-checked identity + differential execution of the two copies', design='5/C20'),
+    'C04': dict(
+        text='Lean 4 refinement theorem over the model of Executor.set_cells/_set_cells_to_executed_instance/get_cell/get_cells/get_sheet, set_arguments ({**old, **new}) and '
+             '_cell_preprocessor: for every workbook and every history of calls on a fresh executor, every output equals a from-scratch evaluation of the workbook in which '
+             'each overridden cell (formula, constant, blank, outside the used range) is replaced by its most recently supplied constant (exec_refines, by an invariant over '
+             'histories; override_is_edit by induction on the evaluation depth). Clauses as corollaries: last_write_wins, override_shadows, overridden_formula_irrelevant, '
+             'override_outside, no_override_no_change. Tie B: generated workbooks x histories with repeated cells and all addressing styles against the model and spec, plus '
+             'a real-code law: values after overrides = a fresh translation of the edited workbook.',
+        note='Trusted: Lean kernel; standard axioms; hand model tied by correspondence; formula evaluation in the model is the C13 fragment evaluator (a parameter of the proof: '
+             'only extensionality is used); dict semantics of CPython (insertion order, replace in place) modelled as association lists; hash-seed effects are not modelled '
+             '(the repaired code no longer depends on hash order).',
+        technique='Lean 4 refinement proof (invariant over operation histories) + differential correspondence + metamorphic re-translation law', design='5/C04'),
+    'C08': dict(
+        text='Lean 4 corollaries of the C04 refinement: every output is a function of the workbook and of the set-cells calls that precede it only '
+             '(specOut_queries_irrelevant, query_independent: any two histories with the same set-cells subsequence answer a query alike - covers repetition, order and '
+             'the API used), query_repeatable, query_pure (queries change neither overrides nor sizes), get_cells_eq_map, sheet_grid (exactly one entry per coordinate of '
+             'the used range extended by the overrides, each equal to the single-cell query; extent_covers), addressing_equiv (A1-style / title addressing = numeric), '
+             'unknown_title_rejected. Tie B: query-heavy schedules against model and spec; permuted and doubled schedules, grid-vs-single, and _arguments / sizes snapshots on the real code.',
+        note='Trusted: as C04; openpyxl column_index_from_string is an external (validated exhaustively in C14).',
+        technique='Lean 4 proof (corollaries of the refinement theorem) + differential correspondence + schedule permutation laws on the real code', design='5/C08'),
 }
 
 WIP = set()   # built, proofs in progress: not claimed until green
